@@ -64,3 +64,169 @@ Proof.
   split; [|vm_compute; repeat split; reflexivity].
   intros e He. cbn in He. repeat (destruct He as [<-|He]; [cbn; tauto|]). destruct He.
 Qed.
+
+(* ================================================================== Monitor clause (Model/Kernel.v)
+   A Monitor is a process whose set-up is [APostRep 0 delta kobs] where program kobs performs
+   [AObserve], which records OObserve t (map length loci).  Proofs in Proofs/KernelMonitor.v.
+
+   Vocabulary:
+     monitor_tb tb delta kobs   delta > 0; some process' set-up is exactly [APostRep 0 delta kobs] (the
+                       other processes, their events and programs are arbitrary, except that no set-up and
+                       no program posts program kobs through APost / APostOn, the only actions that hand
+                       an id to user code); program kobs returns the action list [AObserve]
+     lht o             (o newest first) the time of the most recent OHandler record in o, 0 if none:
+                       [lht (rev pre)] is the time of the last handler call before position |pre| of r_out
+     hrec y, trec y    the OHandler (member None) and OTap records that firing the queue entry y leaves
+     stoch_fired / sync_fired   the queue entries fired during the run, in order
+     nonneg_tb, Forall (Qle 0) ls, r_stuck = false   as in C03 / C04 *)
+From Coq Require Import QArith Lqa Sorted.
+From EpyV Require Import Model.Kernel Proofs.KernelBase Proofs.KernelLoops Proofs.KernelQueue Proofs.KernelFire
+  Proofs.KernelTime Proofs.KernelResults Proofs.KernelMonitor Proofs.KernelExample.
+Open Scope Q_scope.
+
+(* ---- C12_obs_record: what an observation records.  The action itself: the handler time and the
+   size of every kernel locus at that instant, in registration order *)
+Theorem C12_obs_action : forall W (s : st W) p t e,
+  do_action p t e AObserve s = emit (OObserve t (map (@length elem) (loci s))) s.
+Proof. reflexivity. Qed.
+
+(* ... and in a run, for EVERY table: each OObserve t sizes in r_out was made inside the handler call
+   whose time is t (the last OHandler record before it carries t; 0 for set-up code) and has exactly
+   one entry per locus of the simulation (no action changes the number of loci) *)
+Theorem C12_obs_record_stoch : forall W (tb : table W) pf fuel rs ls ds pre t sizes post,
+  r_out (stoch_run tb pf fuel rs ls ds) = pre ++ OObserve t sizes :: post ->
+  t = lht (rev pre) /\ length sizes = length (t_loci tb).
+Proof. intros W tb pf fuel rs ls ds. exact (obs_record_stoch tb pf fuel rs ls ds). Qed.
+
+Theorem C12_obs_record_sync : forall W (tb : table W) pf fuel rs ds pre t sizes post,
+  r_out (sync_run tb pf fuel rs ds) = pre ++ OObserve t sizes :: post ->
+  t = lht (rev pre) /\ length sizes = length (t_loci tb).
+Proof. intros W tb pf fuel rs ds. exact (obs_record_sync tb pf fuel rs ds). Qed.
+
+(* ---- the monitor's event cannot be un-posted: APostRep hands no id to user code, so an entry that
+   runs the observe program is never named in [ids], which is all AUnpost / AQuery can address;
+   invariant under every action that does not post kobs through APost / APostOn, and such an entry
+   survives every action *)
+Theorem C12_monitor_never_unposted : forall W (s : st W) kobs p t e a,
+  MI kobs s ->
+  (nopush kobs a -> MI kobs (do_action p t e a s)) /\
+  (forall y, e_prog y = kobs -> In y (queue s) ->
+     e_live y = true /\ ~ In (e_id y) (ids s) /\ In y (queue (do_action p t e a s))).
+Proof.
+  intros W s kobs p t e a HM. split; [intros Ha; exact (MI_do_action kobs p t e a s Ha HM)|].
+  intros y Hp Hy. destruct (proj2 (proj2 HM) y Hy Hp) as [A B].
+  split; [exact A|split; [exact B|exact (keep_do_action kobs y p t e a s HM Hp Hy)]].
+Qed.
+
+Theorem C12_monitor_pending_at_end : forall W (tb : table W) delta kobs pf fuel rs ls ds x,
+  monitor_tb tb delta kobs -> e_prog x = kobs ->
+  (In x (queue (r_final (stoch_run tb pf fuel rs ls ds))) ->
+     e_live x = true /\ ~ In (e_id x) (ids (r_final (stoch_run tb pf fuel rs ls ds)))) /\
+  (In x (queue (r_final (sync_run tb pf fuel rs ds))) ->
+     e_live x = true /\ ~ In (e_id x) (ids (r_final (sync_run tb pf fuel rs ds)))).
+Proof.
+  intros W tb delta kobs pf fuel rs ls ds x Hmt Hp. split; intros Hx.
+  - exact (monitor_safe_stoch tb pf fuel delta kobs Hmt rs ls ds x Hx Hp).
+  - exact (monitor_safe_sync tb pf fuel delta kobs Hmt rs ds x Hx Hp).
+Qed.
+
+(* ---- C12_obs_times: the monitor observes at 0, delta, 2 delta, ...: for every k with k * delta
+   strictly before the end time (stochastic) / the last executed step TIME - 1 (synchronous) the k-th
+   repetition y fired at e_time y == k * delta and left, consecutively in r_out, its handler record,
+   ONE observation with one size per locus, and its tap.  (The repetitions are distinct entries, fired
+   in increasing time by C04_order; an observation due exactly at the end time may or may not have run.) *)
+Theorem C12_obs_times_stoch : forall W (tb : table W) delta kobs pf fuel rs ls ds,
+  monitor_tb tb delta kobs -> nonneg_tb tb -> Forall (Qle 0) ls ->
+  let r := stoch_run tb pf fuel rs ls ds in
+  r_stuck r = false ->
+  forall k : nat, inject_Z (Z.of_nat k) * delta < r_time r ->
+  exists y sizes pre post, In y (stoch_fired tb pf fuel rs ls ds) /\
+    e_time y == inject_Z (Z.of_nat k) * delta /\ e_prog y = kobs /\
+    r_out r = pre ++ hrec y :: OObserve (e_time y) sizes :: trec y :: post /\
+    length sizes = length (t_loci tb).
+Proof. intros W tb delta kobs pf fuel rs ls ds Hmt. exact (obs_times_stoch tb pf fuel delta kobs Hmt rs ls ds). Qed.
+
+Theorem C12_obs_times_sync : forall W (tb : table W) delta kobs pf fuel rs ds,
+  monitor_tb tb delta kobs ->
+  let r := sync_run tb pf fuel rs ds in
+  r_stuck r = false ->
+  forall k : nat, inject_Z (Z.of_nat k) * delta + 1 < r_time r ->
+  exists y sizes pre post, In y (sync_fired tb pf fuel rs ds) /\
+    e_time y == inject_Z (Z.of_nat k) * delta /\ e_prog y = kobs /\
+    r_out r = pre ++ hrec y :: OObserve (e_time y) sizes :: trec y :: post /\
+    length sizes = length (t_loci tb).
+Proof. intros W tb delta kobs pf fuel rs ds Hmt. exact (obs_times_sync tb pf fuel delta kobs Hmt rs ds). Qed.
+
+(* ---- C12_obs_value: an observation at tau made from a handler sits after every event handler
+   with an earlier time and before every one with a later time: every handler call before it in
+   r_out has time <= tau, every one after it has time >= tau.  Hence the recorded sizes are those
+   of the state after every event strictly earlier than tau and before every event strictly later. *)
+Theorem C12_obs_value_stoch : forall W (tb : table W) pf fuel rs ls ds pre tau sizes post,
+  nonneg_tb tb -> Forall (Qle 0) ls -> r_stuck (stoch_run tb pf fuel rs ls ds) = false ->
+  r_out (stoch_run tb pf fuel rs ls ds) = pre ++ OObserve tau sizes :: post -> filter is_handler pre <> [] ->
+  (forall k t c e m, In (OHandler k t c e m) pre -> t <= tau) /\
+  (forall k t c e m, In (OHandler k t c e m) post -> tau <= t).
+Proof. intros W tb pf fuel rs ls ds pre tau sizes post. exact (obs_value_stoch tb pf fuel rs ls ds pre tau sizes post). Qed.
+
+Theorem C12_obs_value_sync : forall W (tb : table W) pf fuel rs ds pre tau sizes post,
+  r_stuck (sync_run tb pf fuel rs ds) = false ->
+  r_out (sync_run tb pf fuel rs ds) = pre ++ OObserve tau sizes :: post -> filter is_handler pre <> [] ->
+  (forall k t c e m, In (OHandler k t c e m) pre -> t <= tau) /\
+  (forall k t c e m, In (OHandler k t c e m) post -> tau <= t).
+Proof. intros W tb pf fuel rs ds pre tau sizes post. exact (obs_value_sync tb pf fuel rs ds pre tau sizes post). Qed.
+
+(* ---- conversely, when nobody else posts the observe program at all (monitor_only: as monitor_tb,
+   with APostRep of kobs excluded too), every observation made inside a posted call of program kobs
+   (the last handler record before it is OHandler kobs _ _ _ None) is at a time k * delta: together
+   with C12_obs_times the monitor's observation times are exactly 0, delta, 2 delta, ... *)
+Theorem C12_obs_only_chain_times : forall W (tb : table W) delta kobs pf fuel rs ls ds pre t sizes post t' c e,
+  monitor_only tb delta kobs ->
+  (r_out (stoch_run tb pf fuel rs ls ds) = pre ++ OObserve t sizes :: post ->
+   lhr (rev pre) = Some (OHandler kobs t' c e None) -> exists k : nat, t == inject_Z (Z.of_nat k) * delta) /\
+  (r_out (sync_run tb pf fuel rs ds) = pre ++ OObserve t sizes :: post ->
+   lhr (rev pre) = Some (OHandler kobs t' c e None) -> exists k : nat, t == inject_Z (Z.of_nat k) * delta).
+Proof.
+  intros W tb delta kobs pf fuel rs ls ds pre t sizes post t' c e Hmo. split.
+  - exact (obs_chain_stoch tb delta kobs Hmo pf fuel rs ls ds pre t sizes post t' c e).
+  - exact (obs_chain_sync tb delta kobs Hmo pf fuel rs ds pre t sizes post t' c e).
+Qed.
+
+(* non-vacuity (Proofs/KernelExample.v, ex_mon): a monitor with delta = 1/2 beside a process with a
+   per-element event that empties the locus, which also posts and un-posts an event of its own.
+   The premises hold; observations at 0, 1/2, 1, 3/2, 2 interleave with the events at 2/3, 7/6, 13/6
+   and record sizes 3 3 2 1 1. *)
+Example C12_example_monitor :
+  monitor_tb ex_mon (1 # 2) 1 /\ monitor_only ex_mon (1 # 2) 1 /\ nonneg_tb ex_mon /\ Forall (Qle 0) ex_mon_lns /\
+  let r := stoch_run ex_mon 50 50 ex_mon_rands ex_mon_lns ex_mon_draws in
+  r_stuck r = false /\ r_time r = 13 # 6 /\
+  r_out r =
+    [OPostedRep 0; OPosted 1 (3 # 4); OUnpost 1 (Some (Some (3 # 4)));
+     OHandler 1 0 0 (EN 0) None; OObserve 0 [3%nat]; OTap 0 0 (NPost 1) (EN 0);
+     OHandler 1 (1 # 2) (1 # 2) (EN 0) None; OObserve (1 # 2) [3%nat]; OTap (1 # 2) 0 (NPost 1) (EN 0);
+     OHandler 0 (2 # 3) (2 # 3) (EN 0) (Some true); OTap (2 # 3) 1 (NEv 1 0) (EN 0);
+     OHandler 1 1 1 (EN 0) None; OObserve 1 [2%nat]; OTap 1 0 (NPost 1) (EN 0);
+     OHandler 0 (7 # 6) (7 # 6) (EN 1) (Some true); OTap (7 # 6) 1 (NEv 1 0) (EN 1);
+     OHandler 1 (3 # 2) (3 # 2) (EN 0) None; OObserve (3 # 2) [1%nat]; OTap (3 # 2) 0 (NPost 1) (EN 0);
+     OHandler 1 2 2 (EN 0) None; OObserve 2 [1%nat]; OTap 2 0 (NPost 1) (EN 0);
+     OHandler 0 (13 # 6) (13 # 6) (EN 2) (Some true); OTap (13 # 6) 1 (NEv 1 0) (EN 2)].
+Proof.
+  split; [|split; [|split; [|split]]].
+  - split.
+    + reflexivity.
+    + exists [], {| p_events := []; p_setup := [APostRep 0 (1 # 2) 1] |},
+        [{| p_events := [ {| ev_elem := true; ev_locus := 0; ev_p := 1; ev_prog := 0 |} ];
+            p_setup := [APost (3 # 4) 2; AUnpost 0 false] |}].
+      split; [reflexivity|split; [reflexivity|]]. repeat constructor. cbn. discriminate.
+    + intros. reflexivity.
+    + intros k t e l w. destruct k as [|[|[|[|k]]]]; vm_compute; repeat constructor.
+  - split.
+    + reflexivity.
+    + exists [], {| p_events := []; p_setup := [APostRep 0 (1 # 2) 1] |},
+        [{| p_events := [ {| ev_elem := true; ev_locus := 0; ev_p := 1; ev_prog := 0 |} ];
+            p_setup := [APost (3 # 4) 2; AUnpost 0 false] |}].
+      split; [reflexivity|split; [reflexivity|]]. repeat constructor. cbn. discriminate.
+    + intros k t e l w. destruct k as [|[|[|[|k]]]]; vm_compute; repeat constructor.
+  - repeat constructor. unfold Qle. cbn. lia.
+  - repeat constructor; unfold Qle; cbn; lia.
+  - vm_compute. repeat split.
+Qed.
